@@ -11,6 +11,11 @@ CHECKS = {
     text="A freezing node and a twin without freezer receive the same 17-block, five-epoch chain (transactions, an uncle, proposals, side-chain blocks at heights that become frozen); after every delivery a synchronous freeze pass runs and every getter the property names is compared for every block, transaction and live cell (store, snapshot, and after a restart). A child process is killed at every point of the first and second freeze pass (before each data write, between data and index write, before the fsync, before each database batch); the parent re-opens, compares the battery, runs the next pass (which must continue to the two-epoch threshold), extends the chain and compares again. Freeze policy (threshold, contiguity, monotonicity) is checked after every pass.",
     note="Trusted: flat world with 4-block epochs; process-crash model; answers about side-chain blocks at frozen heights are exempt; cell data is queried for live cells only.",
     design="DESIGN.md §5 C10"),
+ "C11": dict(engine="node", category="exploration",
+    technique="explicit-state breadth-first search over operation histories on the real tx-pool service of a real node (every transition a real submit / remove / mined block / clock advance), dedup by a fingerprint of the pool's internal dump plus chain state; after every transition the bookkeeping is judged by recomputation from the pool's contents",
+    text="Nine designed transactions (a chain of four against an ancestor limit of three, a two-parent join, one sufficient and one insufficient RBF replacement, a cell-dep user and the consumer of that dep cell) over a real node with production pool wiring; operations Submit(i), Remove(i), Mine (the node's own block template is sealed and processed: pending -> gap -> proposed -> committed), Expire (clock past expiry + a block). All histories to the tier's depth, with RBF on and off, are replayed; after every operation a hook dumps entries, input/dep edge maps, links and the recorded aggregates, and the oracle recomputes: no double spend, edges == inputs/deps of pooled entries, link key set == entries, parents/children == actual spend/dep relations and mutually transposed, ancestor/descendant count/size/cycles/fee == sums over the link closure, ancestor limit, status counters and totals, and for replacements: accepted => all conflicts and their descendants gone; rejected => pool unchanged.",
+    note="Trusted: the dump hook reads the structures faithfully; transactions use always-success locks; pool size-limit eviction is reached only through the small max_tx_pool_size; concurrency between the pool's service tasks is not enumerated (operations are applied one at a time to quiescence).",
+    design="DESIGN.md §5 C11"),
  "C15": dict(engine="seq", category="exploration",
     technique="small-scope exhaustive enumeration of value shapes (all vector lengths 0..2, all option/union arms, numeric extremes in every position) and of single-field / single-byte mutations, with round-trip, field-content and hash-commitment oracles",
     text="243 transaction shapes, 81 block shapes, every script hash type x args size, every protocol union arm (27 messages) are pushed through: molecule strict/compatible decode and field-by-field rebuild; packed->JSON->text->JSON->packed and back; a field-by-field comparison of the JSON object with the packed fields it names (so a swap in both conversion directions is caught); hash laws under an 18-entry transaction mutation catalogue and a block mutation catalogue (tx hash ignores witnesses only, witness hash / transactions root / proposals hash / extra hash / block hash each change when they must, cached view hashes equal recomputation); and ~400k single-byte, header-word and truncation mutants of the encodings, where every mutant accepted by strict decoding must re-encode to itself.",
@@ -18,8 +23,8 @@ CHECKS = {
     design="DESIGN.md §5 C15"),
  "C16": dict(engine="seq", category="exploration",
     technique="exhaustive enumeration of short byte strings and of single-step mutants of every protocol message through the production decode boundary and a full accessor/verifier walk; exhaustive subsets of prefilled/available/supplied transactions and tamperings through the real Relayer::reconstruct_block",
-    text="All 65 793 byte strings of length <=2 and, for one seed message per union arm of the four protocols (incl. blocks / compact blocks carrying an extension), every truncation, single-byte substitution (7 values), aligned header-word replacement (7 values) and bit flip, raw and inside a compressed frame, are decoded the way the handlers do (compatible decoding + the handlers' malformed-message predicates, exposed by a hook) and every accessor, view conversion, hash, Display and context-free verifier is run under catch_unwind; decompress output is bounded. Reconstruction: the real Relayer on a real node+pool, for every prefilled subset (8) x pool subset (8) x supplied subset incl. a foreign tx (16) x tampering (6): the result must be the announced block (byte-identical, same hash), a precise missing list, a collision or an error.",
-    note="Byte strings further than one mutation from a seed are not enumerated; only compact blocks accepted by CompactBlockVerifier are reconstructed (production order); uncles supplied by peers are not varied.",
+    text="All 65 793 byte strings of length <=2 and, for one seed message per union arm of the four protocols (incl. blocks / compact blocks carrying an extension), every truncation, single-byte substitution (7 values), aligned header-word replacement (7 values) and bit flip, raw and inside a compressed frame, are decoded the way the handlers do (compatible decoding + the handlers' malformed-message predicates, exposed by a hook) and every accessor, view conversion, hash, Display and context-free verifier is run under catch_unwind; decompress output is bounded. Reconstruction: the real Relayer on a real node+pool, for every prefilled subset (8) x pool subset (8) x supplied subset incl. a foreign tx (16) x tampering (6): the result must be the announced block (byte-identical, same hash), a precise missing list, a collision or an error. Structure: every prefilled index sequence of length 0..3 over {0,1,2,3,4,7} x 7 short-id lists (incl. a duplicate) goes through CompactBlockVerifier and, if accepted, reconstruct_block. Uncles: a block with two locally unknown uncles, every asked index set x every peer answer sequence of length 0..3 over {U0,U1,foreign} through BlockUnclesVerifier and then reconstruct_block.",
+    note="Byte strings further than one mutation from a seed are not enumerated; only compact blocks accepted by CompactBlockVerifier and answers accepted by BlockTransactions/BlockUnclesVerifier are reconstructed (production order); asked uncle indexes are in range (they are the node's own).",
     design="DESIGN.md §5 C16"),
  "C17": dict(engine="seq", category="model_checking",
     technique="explicit-state search over operation histories on the real structures (orphan pool to the fixpoint of reachable states; in-flight table with step-wise refinement checks on the dumped state; header map with real sled backend vs BTreeMap; skip-list ancestor lookup vs parent walk)",
